@@ -351,3 +351,74 @@ pub fn replay(file: &ReplayFile) -> (Option<Finding>, u64) {
 pub fn regenerate(prop: &str, base_seed: u64, index: u64) -> RunCfg {
     gen::generate(prop, base_seed, index)
 }
+
+// ---------------------------------------------------------------------------------------------
+// minimisation of violations that can only be observed from outside the process
+// (process-abort, build-divergence): every trial is a child process per build
+
+/// `trial(cfg)` must return true if the violation persists for this configuration.
+pub fn minimise_external(
+    start: RunCfg,
+    budget: Duration,
+    mut trial: impl FnMut(&RunCfg) -> bool,
+) -> (RunCfg, u32) {
+    let deadline = Instant::now() + budget;
+    let mut best = start;
+    let mut tries = 0u32;
+    let mut progress = true;
+    while progress && Instant::now() < deadline {
+        progress = false;
+        let mut t = 0;
+        while t < best.threads.len() && Instant::now() < deadline {
+            if let Some(c) = drop_thread(&best, t) {
+                tries += 1;
+                if trial(&c) {
+                    best = c;
+                    progress = true;
+                    continue;
+                }
+            }
+            t += 1;
+        }
+        for which in 0..=best.threads.len() {
+            let mut i = if which == 0 {
+                best.pre.len()
+            } else {
+                best.threads[which - 1].len()
+            };
+            while i > 0 && Instant::now() < deadline {
+                i -= 1;
+                let mut c = best.clone();
+                if which == 0 {
+                    c.pre.remove(i);
+                } else {
+                    c.threads[which - 1].remove(i);
+                }
+                tries += 1;
+                if trial(&c) {
+                    best = c;
+                    progress = true;
+                }
+            }
+        }
+        if best.terminal != Terminal::Drop && Instant::now() < deadline {
+            let mut c = best.clone();
+            c.terminal = Terminal::Drop;
+            tries += 1;
+            if trial(&c) {
+                best = c;
+                progress = true;
+            }
+        }
+        if best.consume_nth > 0 && Instant::now() < deadline {
+            let mut c = best.clone();
+            c.consume_nth = 0;
+            tries += 1;
+            if trial(&c) {
+                best = c;
+                progress = true;
+            }
+        }
+    }
+    (best, tries)
+}
